@@ -115,6 +115,9 @@ fn kinds() -> Vec<KindDef> {
         // buffers, many names sharing an 8-bit HET hash inside one probe run
         KindDef { name: "large-v3-attr-crc32", spec: base(3, Attrs::Crc32, false, files_many(1600, 3)), signed: false, protects: &[], prefix: 0, intact_only: true },
         KindDef { name: "large-v4-attr-full", spec: base(4, Attrs::Full, false, files_many(2600, 4)), signed: false, protects: &[], prefix: 0, intact_only: true },
+        // compressed HET/BET tables: the V4 header records the stored (compressed) table sizes and the digests cover exactly those bytes
+        KindDef { name: "v4-digests-compressed-tables-60", spec: ArchiveSpec { compress_tables: true, ..base(4, Attrs::None, false, files_many(60, 5)) }, signed: false, protects: &[], prefix: 0, intact_only: true },
+        KindDef { name: "v4-digests-compressed-tables-1", spec: ArchiveSpec { compress_tables: true, ..base(4, Attrs::Crc32, false, files_many(1, 6)) }, signed: false, protects: &[], prefix: 0, intact_only: true },
         KindDef { name: "weak-signature-behind-prefix", spec: base(1, Attrs::None, false, signed_files.clone()), signed: true, protects: &["header", "hash-table", "block-table", "file-data", "sector-offset-table", "listfile", "signature-file", "slack"], prefix: 1024, intact_only: false },
     ]
 }
